@@ -4,7 +4,7 @@
 From Coq Require Import List NArith Bool Lia String.
 From Breadlog Require Import Model.Peg Model.Text Model.Regex Model.Glue Model.Tables Model.Utf8 Model.Driver.
 From Breadlog Require Import Gen.Grammar Gen.Consts.
-From Breadlog Require Import Proofs.PegFacts Proofs.TokenFacts Proofs.GlueFacts.
+From Breadlog Require Import Proofs.PegFacts Proofs.TokenFacts Proofs.GlueFacts Proofs.NoPanic.
 From Breadlog Require Import Properties.Common.
 Import ListNotations.
 Open Scope N_scope.
@@ -31,13 +31,28 @@ Qed.
    (only log_macro / other_name / EOI tokens can stand directly under `file`), every string slice
    and line/column computation is at char boundaries (node spans are, for any grammar), the
    directive scan slices at the end of the statement's first character, and it cannot hang. *)
-Theorem C17_finder_total : forall cfg (t : list N), exists es, find cfg t = Done es.
+Theorem C17_finder_total : forall cfg (t : list N),
+  exists es, find cfg t = Done es /\ Forall (fun e => e_pos e <= blen t) es.
 Proof.
   destruct the_grammar_ok as (name & ty & impl & body & H).
   exact (entries_total the_params name ty impl body H).
 Qed.
 
-Check C17_finder_total : forall cfg (t : list N), exists es, find cfg t = Done es.
+Check C17_finder_total : forall cfg (t : list N),
+  exists es, find cfg t = Done es /\ Forall (fun e => e_pos e <= blen t) es.
+
+(* ... and every entry position is a byte offset inside the text; since a file that decodes as UTF-8
+   has exactly blen(text) bytes (Utf8Facts.decode_length), every byte slice the rewriter takes is in
+   range: for EVERY tree, configuration, lock state and oracle (faults, stop points) neither mode of
+   the driver model ends in a panic or a hang *)
+Theorem C17_edit_never_panics : forall rc disc lk o,
+  ro_exit (run_edit the_params find c_START_REFERENCE_ID rc disc lk o) <> XPanic /\
+  ro_exit (run_edit the_params find c_START_REFERENCE_ID rc disc lk o) <> XHang.
+Proof. exact (run_edit_never_panics the_params find c_START_REFERENCE_ID C17_finder_total). Qed.
+
+Theorem C17_check_never_panics : forall rc disc o,
+  ro_exit (run_check find rc disc o) <> XPanic /\ ro_exit (run_check find rc disc o) <> XHang.
+Proof. exact (run_check_never_panics find C17_finder_total). Qed.
 
 (* a file that is not valid UTF-8 is skipped, and the run goes on with the other files: in the
    driver model an undecodable file contributes no event and no effect *)
@@ -52,7 +67,7 @@ Theorem C17_no_file_panics : forall cfg rfail b,
 Proof.
   intros cfg rfail b. unfold file_entries. destruct rfail; [split; discriminate|].
   destruct (utf8_decode b) as [t|]; [|split; discriminate].
-  destruct (C17_finder_total cfg t) as [es ->]. split; discriminate.
+  destruct (C17_finder_total cfg t) as (es & -> & _). split; discriminate.
 Qed.
 
 (* non-vacuity: inputs that used to panic (multi-byte first character of a macro name) or to be
@@ -66,5 +81,7 @@ Proof. vm_compute. split; [reflexivity|]. split; [eexists; reflexivity|reflexivi
 Print Assumptions C17_grammar_wf.
 Print Assumptions C17_parse_terminates.
 Print Assumptions C17_finder_total.
+Print Assumptions C17_edit_never_panics.
+Print Assumptions C17_check_never_panics.
 Print Assumptions C17_invalid_utf8_skipped.
 Print Assumptions C17_no_file_panics.
